@@ -78,6 +78,23 @@ def handle (toks : List String) : Option String :=
       | "proj" => (do
           let ms ← parseNatList a1
           pure (showOpt (project ms S))).orElse fun _ => some "err parse"
+      | "mixsplit" => (do
+          -- round 5: closed form of `fs.combine_two_pops([p,q]).project(.. M ..)` (C10_project_merged_mixture)
+          let pq ← parseNatList a1; let M ← a2.toNat?
+          match pq with
+          | [p, q] =>
+            if p = 0 ∨ q = 0 ∨ p = q ∨ S.ndim < p ∨ S.ndim < q then pure "err raises"
+            else
+              let a := (Gen.c2Pair p q).1
+              let b := (Gen.c2Pair p q).2
+              if (S.shape.getD a 0 - 1) + (S.shape.getD b 0 - 1) < M then pure "err raises"
+              else pure (showFS (mixSplit a b M S))
+          | _ => none).orElse fun _ => some "err parse"
+      | "projscr" => (do
+          -- round 5: closed form of `fs.scramble_pop_ids(mc).project(ms)` (C10_project_scramble)
+          let ms ← parseNatList a1; let mc ← parseBool a2
+          if ms.length ≠ S.ndim || (List.zipWith (fun m s => decide (s < m + 1)) ms S.shape).any id then pure "err raises"
+          else pure (showFS (redealProj mc ms S))).orElse fun _ => some "err parse"
       | "total" => some ("ok " ++ showRat (total S))
       | _ => some "err op"
   | _ => none
